@@ -51,7 +51,7 @@ def ntflColF {α : Type} [Zero α] [Add α] [Mul α] {b : Nat}
     (Ms Ml : Fin b → Fin b → α) (as : Fin b → α) : NtCol α b :=
   let T : Fin b → Fin b → α := fun i k => Ms i k + Ml i k
   let Mr := solve T Ms
-  let A := memo (fmulVec Mr as)
+  let A := look (tab (fmulVec Mr as))
   { A := A, F := fmulVec Ml A, R := fun i => Mr i i, Mr := Mr, TAM := T }
 
 /-- all of `ntfl(SAM, LAM, As, freq)` for 3-d `SAM`, `LAM` given flat: column `j` of every output -/
